@@ -18,7 +18,9 @@ SPACE = dict({'graph': ['P2', 'P3', 'TRI'], 'chain': CHAINS, 'chain_rev': ['F80'
               'eq': ['test', 'example', 'example_p228'],
               'dpr': [[-2, 3, 0.5], [0, 0, 0.5], [0, 3, 3], [-1, 1, 0.1], [-1.2, 1.3, 0.5], [0, 0, 0]],
               'slope': [0.3, 0.5], 'loss_ref': [20, 17], 'voa_auto': [0, 1], 'si_power': [0, 3, -2, 5],
-              'roadm_target': [-20, -25, -12, -17.3], 'band_spacing': [None, 37.5e9, 100e9]}, **tg.SPAN_SPACE)
+              'roadm_target': [-20, -25, -12, -17.3], 'band_spacing': [None, 37.5e9, 100e9],
+              # the library object has already served the design of another line (long fibre, other chain) in this process
+              'used_library': [0, 1]}, **tg.SPAN_SPACE)
 
 
 def chain(kind):
@@ -126,7 +128,8 @@ def run_case(case):
     topo = topology(case)
     user = {e['uid']: e for e in topo['elements']}
     try:
-        net, equipment, req, ref = c.design(topo, eq)
+        warm = topology(dict(case, graph='P2', chain='F200', chain_rev='F80_E_F70')) if case.get('used_library') else None
+        net, equipment, req, ref = c.design(topo, eq, warm=warm)
     except Exception as exc:  # noqa  (judged by C08)
         if type(exc) is ConfigurationError:
             return {'status': 'rejected', 'tags': {'design-rejected': 1}}
